@@ -322,7 +322,7 @@ func init() {
 	for sc := 0; sc <= 7; sc++ {
 		q = append(q, H{Pkg: "components", Fn: "VxH12", Params: p("scenario", sc, "preempt", 0), MustReach: []string{"analysed"}, MustAssert: []string{"C12.scenario-runs", "C12.conflicting-pair-ordered"}})
 		pre := 1
-		if sc == 0 || sc == 3 || sc == 7 {
+		if sc == 0 || sc == 3 || sc == 6 || sc == 7 {
 			pre = 0 // the two largest traces are analysed on the default schedule only
 		}
 		th = append(th, H{Pkg: "components", Fn: "VxH12", Params: p("scenario", sc, "preempt", pre), MustReach: []string{"analysed"}, MustAssert: []string{"C12.scenario-runs", "C12.conflicting-pair-ordered"}})
@@ -336,7 +336,7 @@ func init() {
 			"scenarios": "eight real workflows run by the real Workflow.Run: fan-out to two processes + fan-in; fan-out to MapToTags and a sibling consumer; streaming pair; multi-core tasks of two processes; FileSplitter output fanned out to two consumers; two tagged inputs merged while sibling components read the tags; three senders connected to one parameter in-port and three to one file in-port (fan-in, concurrent CloseConnection); tasks logging audit lines while others log warnings (every logger holds its own mutex around a write to its sink; files are synchronised by the kernel, a bufio.Writer is plain memory)",
 			"trace":     "every load / store through a pointer, every map read / write and every JSON marshal traversal, per goroutine, plus every channel send / receive / close, mutex lock / unlock, go statement, WaitGroup event (1 100 - 3 900 events per run)",
 			"query":     "for every pair of conflicting accesses (same location, different goroutines, one a write, at least one in library code; 3 instances per pair of code sites): is there a total order of the synchronisation events consistent with program order, channel matching and capacity, recorded critical-section order and goroutine creation in which the two accesses are adjacent",
-			"schedule":  "quick: the default schedule of each scenario; thorough: plus every schedule with one deviation for five of the eight scenarios",
+			"schedule":  "quick: the default schedule of each scenario; thorough: plus every schedule with one deviation for four of the eight scenarios",
 		},
 		Outside: []string{
 			"re-orderings that change a goroutine's control flow (the analysis keeps the recorded control flow of each goroutine; critical sections keep their recorded order)",
